@@ -52,7 +52,11 @@ cfg("C02_thorough", 2, 2, 2, 2, C02A + ["RemoveFromGroup", "SaveAs"], 6, names=(
 # --- C05: removal through both entry points; data in 0/1/2 property groups; survivors keep working
 C05A = ["CreateGroup", "CreateObject", "AddData", "AddToGroup", "SetFlag", "RemoveViaWorkspace", "RemoveViaParent", "RemovePG",
         "Close", "Open", "Copy"] + GC
-cfg("C05_quick", 1, 1, 2, 2, C05A, 5, names=("a", "b"), vals=(1,))
+# MaxDepth counts the initial state: 6 = behaviours of 5 actions (object, data, two property groups, removal)
+cfg("C05_quick", 1, 1, 2, 2, C05A, 6, names=("a", "b"), vals=(1,))
+# removal of special children (visual parameters, comments, files) and of their owners
+cfg("C05vp_quick", 1, 1, 2, 1, ["CreateGroup", "CreateObject", "AddVisual", "AddComment", "AddFile", "RemoveViaWorkspace",
+                                "RemoveViaParent", "Copy", "Close", "Open"] + GC, 5, names=("a",), vals=(1,))
 cfg("C05_thorough", 2, 1, 2, 2, C05A + ["RemoveFromGroup", "Move"], 6, names=("a", "b"), vals=(1,))
 # --- C06: identifiers: explicit uids, collisions with live entities of any kind, re-creation, copies
 C06A = ["CreateGroup", "CreateObject", "AddData", "CreateWithUid", "RemoveViaWorkspace", "RemoveViaParent", "Copy", "Close",
